@@ -61,6 +61,11 @@ def cases(tier, seed):
         for hdr in itertools.permutations(HNAMES, k):
             for n in range(1, k + 2):
                 yield {"kind": "headers", "hdr": list(hdr), "n": n}
+    if tier == "quick":
+        # CsvPaths delivery (serial and breadth-first) under non-default dialects: single records of <=2 cells over the sub-alphabet
+        for a in r2:
+            for d, q in ((";", '"'), (",", "'"), ("|", "'")):
+                yield {"kind": "group", "rows": [a, ["z"]], "d": d, "q": q}
     if tier == "thorough":
         r3 = _rows(SUB4, 2)
         for a in r3:
